@@ -48,7 +48,7 @@ package ice
 //@   site call createConn#1 assert a-provisional-connection-is-created-only-for-a-ufrag-nobody-registered: !foundPC
 //@   site call createConn#1 ghost createdPC := result1 == nil
 //@   site call AddConn#1 assert attaches-only-to-a-packet-connection-that-was-found-or-created: foundPC || createdPC
-//@   site call AddConn#1 assert the-first-message-is-handed-over-in-memory-of-its-own-which-no-later-connection-writes-into: arg2 == buf && fresh(buf)
+//@   site call AddConn#1 assert the-first-message-is-handed-over-in-memory-of-its-own-which-no-later-connection-writes-into: fresh(arg2)
 //@   site call AddConn#1 ghost offered := true
 //@   ensures an-open-mux-waits-for-the-first-frame-of-every-accepted-connection: !closedAtTop ==> readTried
 //@   ensures a-connection-whose-packet-connection-exists-is-offered-to-it: foundPC || createdPC ==> offered
@@ -62,7 +62,7 @@ package ice
 //@   site call getConn#1 assert routed-by-ufrag-before-colon-family-and-local-ip: arg1 == parts0 && arg1 == ufrag && arg2 == isIPv6 && arg3 == localAddr.IP
 //@   site call getConn#1 assert a-closed-mux-attaches-no-connection: !m.closed
 //@   site call createConn#1 assert unknown-ufrag-gets-a-provisional-conn: arg1 == ufrag && arg2 == isIPv6 && arg3 == localAddr.IP && arg4 == true
-//@   site call AddConn#1 assert attaches-this-conn-with-its-first-frame: arg0 == packetConn && arg1 == conn && arg2.base == buf.base && len(arg2) == n && closedCount == 0
+//@   site call AddConn#1 assert attaches-this-conn-with-its-first-frame: arg0 == packetConn && arg1 == conn && len(arg2) == n && (forall i int :: 0 <= i && i < n ==> arg2[i] == buf[i]) && closedCount == 0
 //@   site call AddConn#1 ghost attached := result == nil
 //@   ensures closed-once-or-attached: (closedCount == 1 && !attached) || (closedCount == 0 && attached)
 //@   ensures a-connection-that-was-attached-or-closed-is-no-longer-pending: !has(m.pending, conn)
